@@ -132,13 +132,16 @@ class ArmInfo:
                 out.append(t.j.get("self_ty"))
         return out
 
-    def err_returns(self):
-        """blocks of the region that construct Result::Err (a rejection)"""
+    def err_returns(self, with_residual=False):
+        """blocks of the region that construct Result::Err (a rejection); with_residual: or return one with `?`"""
         out = []
         for b in sorted(self.blocks):
             for s in self.fn.blocks[b].stmts:
                 if s.rv is not None and s.rv.k == "agg" and s.rv.j.get("ak") == "adt" and s.rv.j.get("adt") == "std::result::Result" and s.rv.j.get("variant") == "Err" and s.lhs.is_local() and s.lhs.local == 0:
                     out.append(b)
+            t = self.fn.blocks[b].term
+            if with_residual and t.k == "call" and t.j.get("callee_name") == "from_residual" and t.dest is not None and t.dest.is_local() and t.dest.local == 0:
+                out.append(b)      # `x?`: the failure of x is returned
         return out
 
 
